@@ -73,6 +73,13 @@ router-advertisements:
       domains: null
 """, {"hop_limit": 0, "managed": False, "other": False, "router_lifetime": 0, "mtu": None, "prefixes": [], "rdnss_addresses": [],
       "dnssl_domains": [], "pref64": [], "captive_portal": []}),
+    # no router-advertisements section at all: the interface is served because its address lies inside `addresses`, and the
+    # prefix is derived from the interface's own address (fd77::1/64), not from a parsed prefix
+    ("""---
+api-listeners: ['127.0.0.1:9968']
+addresses: ['fd77::/64', '10.77.0.0/24']
+""", {"prefixes": [{"prefix": "fd77::", "len": 64, "on_link": True, "autonomous": True, "valid": 2592000, "preferred": 604800}],
+      "pref64": [], "captive_portal": []}),
 ]
 
 
@@ -81,7 +88,7 @@ def main():
     args = base.parse_args()
     leg = base.Leg(
         "c17-ra-e2e", "C17",
-        "real erbium per configuration (all fields set; null/absent mix; everything suppressed), router solicitation from the client "
+        "real erbium per configuration (all fields set; null/absent mix; everything suppressed; no RA section, interface implied by `addresses`), router solicitation from the client "
         "namespace over the veth pair, advertisement captured from the raw ICMPv6 socket and decoded by the RFC decoder: every configured "
         "value, $self6 = the interface's ULA, source link-layer address = the interface MAC, interface MTU when none is configured, "
         "structural rules; distinct = (configuration, field, outcome)", floor=20)
